@@ -17,10 +17,12 @@
 //	skip   (deny branch `continue`s inside the loop that also contains the effect: per item)
 //	filter (deny branch `continue`s / else-branch, in a loop that ends before the effect; the
 //	        loop's pass path appends the item to a slice and ONLY that slice reaches the effect)
+//	flag   (the guard's verdict is stored in a variable that is passed on to the effectful call, e.g.
+//	        mayCreate := h.autoCreateTopics && h.allowTopic(principal, topicName, acl.ActionProduce))
 //	pre    (an un-guarded preparatory step recorded for visibility: acquirePartitionLeases;
 //	        resolved[v]: v is assigned the name a topic ID resolves to, before v is authorised)
 //
-// effect = first call, in source order on the pass path, out of: h.ensureTopic, h.getPartitionLog,
+// effect = first call, in source order on the pass path, out of: h.ensureTopic, h.getPartitionLog, h.partitionLog,
 //
 //	h.coordinator.*, h.store.{CreateTopic,DeleteTopic,UpdateTopicConfig,CreatePartitions,
 //	UpdateOffsets,CommitConsumerOffset,FetchTopicConfig,NextOffset}, plog.{AppendBatch,Read,Flush},
@@ -75,7 +77,7 @@ func selPath(e ast.Expr) string {
 func effectName(c *ast.CallExpr) string {
 	p := selPath(c.Fun)
 	switch {
-	case p == "h.ensureTopic" || p == "h.getPartitionLog" || p == "h.waitForFetchData":
+	case p == "h.ensureTopic" || p == "h.getPartitionLog" || p == "h.partitionLog" || p == "h.waitForFetchData":
 		return p
 	case strings.HasPrefix(p, "h.coordinator."):
 		return p
@@ -201,6 +203,10 @@ func (a *analyzer) scanCalls(n ast.Node, ctx *walkCtx) *result {
 				return false
 			}
 			p := selPath(c.Fun)
+			if g := guardOfCall(c); g != "" {
+				// a guard whose verdict is stored (not branched on): e.g. mayCreate := ... allowTopic(.., ActionProduce)
+				ctx.guards = append(ctx.guards, guard{g, "flag"})
+			}
 			if p == "h.acquirePartitionLeases" {
 				ctx.guards = append(ctx.guards, guard{"acquirePartitionLeases", "pre"})
 			}
